@@ -15,7 +15,7 @@
    and not stated separately: the models index their embeddings by exactly these ids (sparse_combo.py:675-713)
    and C09 proves predictions row-wise in the ids. *)
 From Coq Require Import ZArith List Bool.
-From Batchie Require Import Lib.Sexp Generated.Consts Generated.SrcArith Model.Encode Model.Screen Model.Reveal Model.Holdout
+From Batchie Require Import Lib.Sexp Generated.Consts Generated.SrcArithC03 Model.Encode Model.Screen Model.Reveal Model.Holdout
   Proofs.C03Base Proofs.C03Screen Proofs.C12Reveal Proofs.C03Frozen Proofs.C03Witness Generated.SrcReveal Proofs.C12Source.
 Import ListNotations.
 Open Scope Z_scope.
